@@ -161,3 +161,66 @@ class InductiveFor(object):
                 fr.l[n] = Poison(n)
         for place, v in self.sN(interp, fr).items():
             self._set(interp, fr, place, v)
+
+
+def path_equalities(path):
+    """equalities decided along an execution path, solved for one plain symbol each:  {atom: P}.  Only 'lhs == rhs' decisions in which
+    some atom occurs linearly, in a single monomial, with a constant coefficient, are used (x == 0, x == y, t0 == t1 + c ...)."""
+    from .pysym import Cond
+    eqs = []
+
+    def walk(c):
+        if not isinstance(c, Cond):
+            return
+        if c.kind == 'cmp' and c.a == '==' and isinstance(c.b, P):
+            eqs.append(c.b)
+        elif c.kind == 'and':
+            walk(c.a)
+            walk(c.b)
+    for c in getattr(path, 'conds', []):
+        walk(c)
+    mapping = {}
+    for p in eqs:
+        p = p.subs(mapping) if mapping else p
+        for m, c in sorted(p.t.items(), key=lambda kv: repr(kv[0])):
+            if len(m) == 1 and m[0][1] == 1 and isinstance(m[0][0], str):
+                a = m[0][0]
+                rest = P({mm: cc for mm, cc in p.t.items() if mm != m})
+                if a in rest.atoms() or any(a in str(x) for x in rest.atoms() if not isinstance(x, str)):
+                    continue
+                sol = rest * P.const(-1 / c)
+                mapping = {k: v.subs({a: sol}) for k, v in mapping.items()}
+                mapping[a] = sol
+                break
+    return mapping
+
+
+def values_equal_on_path(a, b, path):
+    """values_equal, and if that fails, once more with the equalities decided along the path substituted into both sides"""
+    ok, why = values_equal(a, b)
+    if ok:
+        return ok, why
+    mp = path_equalities(path)
+    if not mp:
+        return ok, why
+
+    def sub(v):
+        if isinstance(v, np.ndarray):
+            out = np.empty(v.shape, dtype=object)
+            for idx in np.ndindex(v.shape):
+                out[idx] = sub(v[idx])
+            return out
+        if not isinstance(v, P):
+            return v
+        # function atoms (cos(...), sin(...)) whose argument mentions a substituted symbol are rebuilt from the substituted argument
+        from . import shims
+        full = dict(mp)
+        for at in v.atoms():
+            base = shims.TRIG_BASE.get(at) if isinstance(at, str) else None
+            if base is not None and (base[1].atoms() & set(mp)):
+                fn = {'cos': shims.sym_cos, 'sin': shims.sym_sin}.get(base[0])
+                if fn is not None:
+                    full[at] = fn(base[1].subs(mp))
+        return normal(v.subs(full))
+    ok2, why2 = values_equal(sub(a), sub(b))
+    return (True, None) if ok2 else (False, why2 + ' (with the path equalities %s substituted)' % ', '.join('%s = %s' % (k, v.text()) for k, v in sorted(mp.items())))
